@@ -328,13 +328,28 @@ def impl_run(case):
                 raise RuntimeError("boom")
             if kind == "kbd":
                 raise KeyboardInterrupt()
+            if kind in ("nestpass", "nestfail"):
+                # nested steps: a passing or a failing sub-step, more output afterwards, then (nestfail) the parent fails as well
+                nesting[0] = True           # the sub-step is looked up while the parent step is running (capture active)
+                try:
+                    context.execute_steps(u"Given %s %d" % ("pass" if kind == "nestpass" else "fail", 900 + n))
+                except Exception:       # noqa -- "Sub-step failed"
+                    pass
+                finally:
+                    nesting[0] = False
+                emit("post%d" % n)
+                if kind == "nestfail":
+                    assert False, "boom after a failed sub-step"
         return impl
-    for kind in ("pass", "fail", "error", "kbd", "hookfail"):
+    for kind in ("pass", "fail", "error", "kbd", "hookfail", "nestpass", "nestfail"):
         registry.add_step_definition("step", "%s {n:d}" % kind, mk(kind))
     orig_find = registry.find_match
 
+    nesting = [False]
+
     def find_match(step):
-        checks.append(["between-steps", sys.stdout is real_out, sys.stderr is real_err])
+        if not nesting[0]:
+            checks.append(["between-steps", sys.stdout is real_out, sys.stderr is real_err])
         return orig_find(step)
     registry.find_match = find_match
 
@@ -407,6 +422,15 @@ def impl_run(case):
                                   for sc in feature.scenarios]}
 
 
+def marks_of(name):
+    """the markers one executed step produces, in order: before_step hook, step function, after_step hook (nested: the sub-step's too)"""
+    kind, n = name.split()[0], name.split()[-1]
+    if kind in ("nestpass", "nestfail"):
+        sub = str(900 + int(n))
+        return ["bs" + n, "step" + n, "bs" + sub, "step" + sub, "as" + sub, "post" + n, "as" + n]
+    return ["bs" + n, "step" + n, "as" + n]
+
+
 def oracle_run(case, obs):
     out = []
     if obs["crashed"]:
@@ -425,7 +449,7 @@ def oracle_run(case, obs):
             n = st["name"].split()[-1]
             if st["status"] in ("untested", "skipped"):
                 continue
-            written += ["bs" + n, "step" + n, "as" + n]
+            written += marks_of(st["name"])
         if sw[ch]:
             if got:
                 out.append(("std%s capture is on but %s reached the real stream" % (ch, got[:3]), "leak-to-real-stream:%s" % ch))
@@ -445,7 +469,7 @@ def oracle_run(case, obs):
         for other in obs["steps"]:
             m = int(other["name"].split()[-1])
             if other["scenario"] == si and m <= n:
-                expected += ["bs%d" % m, "step%d" % m, "as%d" % m]
+                expected += marks_of(other["name"])
         for ch, prefix in (("out", "OUT-"), ("err", "ERR-"), ("log", "LOG-")):
             got = re.findall(prefix + r"(\w+)", st["error_message"])
             want = expected if sw[ch] else []
@@ -459,7 +483,7 @@ def oracle_run(case, obs):
         for st in obs["steps"]:
             if st["scenario"] == si:
                 n = st["name"].split()[-1]
-                own |= {"bs" + n, "step" + n, "as" + n}
+                own |= set(marks_of(st["name"]))
         for text, prefix in zip(cap, ("OUT-", "ERR-", "LOG-")):
             foreign = [g for g in re.findall(prefix + r"(\w+)", text) if g not in own]
             if foreign:
@@ -496,6 +520,7 @@ def suites(tier, seed):
     runs = []
     kinds = ["pass", "fail", "error", "kbd", "hookfail"]
     seqs = [list(t) for n in (1, 2, 3) for t in itertools.product(kinds, repeat=n)]
+    seqs += [list(t) for n in (1, 2) for t in itertools.product(kinds + ["nestpass", "nestfail"], repeat=n) if "nestpass" in t or "nestfail" in t] * 3
     for sw in itertools.product([False, True], repeat=3):
         for _ in range(40 if thorough else 9):
             scen = [rnd.choice(seqs) for _ in range(rnd.randint(1, 3))]
